@@ -73,7 +73,7 @@ def doc_lines(docs, emitted):
     for d in docs:
         s = idlgen.schema_sexp(d)
         for v in (d["name"], d["name"] + "k"):
-            if v in emitted and not v.endswith("k"):
+            if v in emitted:
                 out.append(f"doc {v} {s}")
     return out
 
@@ -130,7 +130,61 @@ def requests_C08(docs, emitted, seed, tier):
                 v = idlgen.gen_item_value(items, it, r, r.randrange(0, 4))
                 w = idlgen.evolve(items, it, v, r)
                 want = idlgen.expected(items, it["name"], w)
+                hz = idlgen.hazards(items, it, w)
+                mark = "".join(f" hazard={h}" for h in sorted(hz))
                 for p in PROTOS:
+                    if hz and p == "ubin":
+                        continue      # the unchecked reader has no bounds checks: a misread value is undefined behaviour, not an answer
                     if r.random() < (0.5 if tier == "quick" else 1.0):
-                        out.append(f"gd {d['name']} {it['name']} {p} {idlgen.sexp(w)} => {want} C08")
+                        out.append(f"gd {d['name']} {it['name']} {p} {idlgen.sexp(w)}{mark} => {want} C08")
+    return out
+
+
+def requests_C13(docs, emitted, seed, tier):
+    """documents compiled with keep_unknown_fields: writer values with extra fields of every wire type at every
+    struct level; checked and unchecked binary"""
+    r = random.Random(seed * 977 + 13)
+    out = doc_lines(docs, emitted)
+    per = 12 if tier == "quick" else 80
+    for d in docs:
+        if d["name"] + "k" not in emitted:
+            continue
+        items, types = data_types(d)
+        args = idlgen.arg_types(d)
+        for it in types:
+            if it.get("synth"):
+                continue      # the Args/Result types pilota-build synthesises are not retention-enabled (same as the plain build: C02/C08)
+            for _ in range(per):
+                v = idlgen.gen_item_value(items, it, r, r.randrange(0, 4))
+                w = idlgen.inject_unknowns(items, ("ref", it["name"]), v, r, 0.6)
+                want = idlgen.expected_keep(items, it["name"], w)
+                hz = []
+                if args and idlgen.contains_type(items, ("ref", it["name"]), w, args):
+                    hz.append("D12")
+                if idlgen.union_known_plus_unknown(items, ("ref", it["name"]), w):
+                    hz.append("D31")
+                mark = "".join(f" hazard={h}" for h in hz)
+                for p in ("bin", "ubin"):
+                    if hz and p == "ubin":
+                        continue
+                    out.append(f"gd {d['name']}k {it['name']} {p} {idlgen.sexp(w)}{mark} => {want} C13")
+                # retention never changes how known fields decode: the plain build of the same document
+                out.append(f"gd {d['name']} {it['name']} bin {idlgen.sexp(w)} => {idlgen.expected(items, it['name'], w)} C13")
+    return out
+
+
+def requests_C19(docs, emitted, seed, tier):
+    """every truncation point of valid encodings of every type: live heap before == after a failed decode"""
+    r = random.Random(seed * 389 + 19)
+    out = doc_lines(docs, emitted)
+    per = 4 if tier == "quick" else 25
+    for d in docs:
+        items, types = data_types(d)
+        for it in types:
+            for _ in range(per):
+                v = idlgen.gen_item_value(items, it, r, r.randrange(1, 4))
+                for p in ("bin", "cmp"):
+                    out.append(f"gl {d['name']} {it['name']} {p} {idlgen.sexp(v)}")
+    # the witness of Props/C19.list_arm_leaks, on the real emitted code
+    out.append("gl da Outer bin (struct (1 (struct (1 (i32 5)))) (12 (bool 1)) (7 (bin 00)) (2 (list struct (struct (1 (i32 1)) (2 (bin 6161616161616161616161616161616161616161616161616161616161))) (struct (1 (i32 2))))))")
     return out
